@@ -140,7 +140,8 @@ def _ensure_text(v, encoding='utf-8', errors='strict'):
 
 
 # six on Python 3 (the interpreter the repository runs under): fixed meanings
-DOTTED_CALLS = {'functools.reduce': _reduce, 'six.iterbytes': lambda b: list(bytes(b)), 'six.indexbytes': lambda b, i: bytes(b)[i],
+import math as _math
+DOTTED_CALLS = {'functools.reduce': _reduce, 'math.isnan': _math.isnan, 'math.isinf': _math.isinf, 'math.isfinite': _math.isfinite, 'math.ceil': _math.ceil, 'math.floor': _math.floor, 'six.iterbytes': lambda b: list(bytes(b)), 'six.indexbytes': lambda b, i: bytes(b)[i],
                 'six.int2byte': lambda i: bytes([i]), 'six.ensure_binary': _ensure_binary, 'six.ensure_text': _ensure_text,
                 'six.ensure_str': _ensure_text, 'six.b': lambda s: s.encode('latin-1'), 'six.u': lambda s: s,
                 'six.text_type': str, 'six.binary_type': bytes}
@@ -177,6 +178,9 @@ def _getattr(obj, name, *default):
 
 
 BUILTINS['getattr'] = _getattr
+BUILTINS['float'] = float
+BUILTINS['round'] = round
+BUILTINS['pow'] = pow
 METHODS.add((set, 'add'))
 BUILTINS['sorted'] = sorted
 BUILTINS['len'] = len
